@@ -2,7 +2,10 @@ package main
 
 import (
 	"go/ast"
+	"go/token"
+	"sort"
 	"strconv"
+	"strings"
 )
 
 // C06: lock discipline around the certificate cache of mitm.Config (the basis of the two-step
@@ -83,5 +86,250 @@ func init() {
 		}
 		g.def("defaultValidity", "String", leanStr(validity))
 		g.def("defaultOrg", "String", leanStr(org))
+
+		// ---- what goes into a leaf (the model's `normalise`, `sanFor`, `issue`, `goVerify` rely on these) ----
+		// Everything is looked up in `cert` and in the functions of the package reachable from it, so that
+		// extracting a helper (newTemplate, stripPort, …) or renaming a local does not change a fact.
+		decls := map[string]*ast.FuncDecl{}
+		for _, d := range f.Decls {
+			if fd, ok := d.(*ast.FuncDecl); ok && fd.Body != nil {
+				decls[fd.Name.Name] = fd
+			}
+		}
+		var reach []*ast.FuncDecl
+		seen := map[string]bool{}
+		var visit func(name string)
+		visit = func(name string) {
+			fd := decls[name]
+			if fd == nil || seen[name] {
+				return
+			}
+			seen[name] = true
+			reach = append(reach, fd)
+			ast.Inspect(fd.Body, func(n ast.Node) bool {
+				c, ok := n.(*ast.CallExpr)
+				if !ok {
+					return true
+				}
+				switch fn := c.Fun.(type) {
+				case *ast.Ident:
+					visit(fn.Name)
+				case *ast.SelectorExpr:
+					if _, ok := fn.X.(*ast.Ident); ok {
+						visit(fn.Sel.Name) // method on the receiver (or pkg.Func: not in decls)
+					}
+				}
+				return true
+			})
+		}
+		visit("cert")
+		imported := map[string]bool{}
+		for _, im := range f.Imports {
+			path, _ := strconv.Unquote(im.Path.Value)
+			name := path[strings.LastIndex(path, "/")+1:]
+			if im.Name != nil {
+				name = im.Name.Name
+			}
+			imported[name] = true
+		}
+		isPkgCall := func(e ast.Expr, pkg, fn string) bool {
+			c, ok := e.(*ast.CallExpr)
+			if !ok {
+				return false
+			}
+			sel, ok := c.Fun.(*ast.SelectorExpr)
+			if !ok || sel.Sel.Name != fn {
+				return false
+			}
+			id, ok := sel.X.(*ast.Ident)
+			return ok && id.Name == pkg
+		}
+		// (a) which library functions may rewrite the host string on its way to the cache key / the SAN
+		rewriters := map[string]bool{}
+		clockReads := 0
+		for _, fd := range reach {
+			ast.Inspect(fd.Body, func(n ast.Node) bool {
+				c, ok := n.(*ast.CallExpr)
+				if !ok {
+					return true
+				}
+				if isPkgCall(c, "time", "Now") {
+					clockReads++
+				}
+				if sel, ok := c.Fun.(*ast.SelectorExpr); ok {
+					if id, ok := sel.X.(*ast.Ident); ok && imported[id.Name] {
+						switch id.Name {
+						case "net", "url", "strings", "bytes", "idna", "netip", "path", "textproto", "unicode":
+							rewriters[id.Name+"."+sel.Sel.Name] = true
+						}
+					}
+					// a method of a value built from one of those packages, e.g. (&url.URL{…}).Hostname()
+					ast.Inspect(sel.X, func(m ast.Node) bool {
+						if cl, ok := m.(*ast.CompositeLit); ok {
+							if ts, ok := cl.Type.(*ast.SelectorExpr); ok {
+								if id, ok := ts.X.(*ast.Ident); ok && imported[id.Name] && id.Name != "x509" && id.Name != "pkix" && id.Name != "tls" {
+									rewriters[id.Name+"."+ts.Sel.Name+"."+sel.Sel.Name] = true
+								}
+							}
+						}
+						return true
+					})
+				}
+				return true
+			})
+		}
+		var rw []string
+		for k := range rewriters {
+			rw = append(rw, k)
+		}
+		sort.Strings(rw)
+		g.def("hostFunctions", "List String", leanList(rw))
+		g.def("templateClockReads", "Nat", strconv.Itoa(clockReads))
+
+		// (b) the SAN: IPAddresses exactly when net.ParseIP(host) != nil, DNSNames otherwise, nowhere else
+		sanWrites := 0
+		countSAN := func(e ast.Expr) {
+			if sel, ok := e.(*ast.SelectorExpr); ok && (sel.Sel.Name == "IPAddresses" || sel.Sel.Name == "DNSNames") {
+				sanWrites++
+			}
+		}
+		for _, fd := range reach { // (NewAuthority's own DNSNames entry is not reachable from cert)
+			ast.Inspect(fd.Body, func(n ast.Node) bool {
+				switch x := n.(type) {
+				case *ast.AssignStmt:
+					for _, l := range x.Lhs {
+						countSAN(l)
+					}
+				case *ast.KeyValueExpr:
+					if id, ok := x.Key.(*ast.Ident); ok && (id.Name == "IPAddresses" || id.Name == "DNSNames") {
+						sanWrites++
+					}
+				}
+				return true
+			})
+		}
+		assignsField := func(b *ast.BlockStmt, field string) (ast.Expr, bool) {
+			if b == nil || len(b.List) != 1 {
+				return nil, false
+			}
+			as, ok := b.List[0].(*ast.AssignStmt)
+			if !ok || len(as.Lhs) != 1 || len(as.Rhs) != 1 {
+				return nil, false
+			}
+			sel, ok := as.Lhs[0].(*ast.SelectorExpr)
+			if !ok || sel.Sel.Name != field {
+				return nil, false
+			}
+			cl, ok := as.Rhs[0].(*ast.CompositeLit)
+			if !ok || len(cl.Elts) != 1 {
+				return nil, false
+			}
+			return cl.Elts[0], true
+		}
+		sanByParseIP := false
+		for _, fd := range reach {
+			ast.Inspect(fd.Body, func(n ast.Node) bool {
+				is, ok := n.(*ast.IfStmt)
+				if !ok || is.Init == nil {
+					return true
+				}
+				as, ok := is.Init.(*ast.AssignStmt)
+				if !ok || len(as.Lhs) != 1 || len(as.Rhs) != 1 || !isPkgCall(as.Rhs[0], "net", "ParseIP") {
+					return true
+				}
+				ipVar := src(as.Lhs[0])
+				arg := src(as.Rhs[0].(*ast.CallExpr).Args[0])
+				cond, ok := is.Cond.(*ast.BinaryExpr)
+				if !ok || cond.Op != token.NEQ || src(cond.X) != ipVar || src(cond.Y) != "nil" {
+					return true
+				}
+				ipElt, ok1 := assignsField(is.Body, "IPAddresses")
+				eb, _ := is.Else.(*ast.BlockStmt)
+				dnsElt, ok2 := assignsField(eb, "DNSNames")
+				if ok1 && ok2 && src(ipElt) == ipVar && src(dnsElt) == arg {
+					sanByParseIP = true
+				}
+				return true
+			})
+		}
+		g.def("sanByParseIP", "Bool", strconv.FormatBool(sanByParseIP))
+		g.def("sanWrites", "Nat", strconv.Itoa(sanWrites))
+
+		// (c) the template: window = now -/+ validity, organisation = the configured one, server-auth usage
+		skew := func(e ast.Expr) string {
+			c, ok := e.(*ast.CallExpr)
+			if !ok || len(c.Args) != 1 {
+				return "other"
+			}
+			sel, ok := c.Fun.(*ast.SelectorExpr)
+			if !ok || sel.Sel.Name != "Add" || !isPkgCall(sel.X, "time", "Now") {
+				return "other"
+			}
+			arg, sign := c.Args[0], "+"
+			if u, ok := arg.(*ast.UnaryExpr); ok && u.Op == token.SUB {
+				arg, sign = u.X, "-"
+			}
+			if s, ok := arg.(*ast.SelectorExpr); ok && s.Sel.Name == "validity" {
+				return "now" + sign + "validity"
+			}
+			return "other"
+		}
+		notBefore, notAfter, orgFromCfg, serverAuth := "absent", "absent", false, false
+		var verifyKeys []string
+		verifyNameIsKey := false
+		for _, fd := range reach {
+			// the identifier that indexes the cache map in this function
+			keyIdent := ""
+			ast.Inspect(fd.Body, func(n ast.Node) bool {
+				if ix, ok := n.(*ast.IndexExpr); ok && isCerts(ix) {
+					keyIdent = src(ix.Index)
+				}
+				return true
+			})
+			ast.Inspect(fd.Body, func(n ast.Node) bool {
+				switch x := n.(type) {
+				case *ast.KeyValueExpr:
+					id, ok := x.Key.(*ast.Ident)
+					if !ok {
+						return true
+					}
+					switch id.Name {
+					case "NotBefore":
+						notBefore = skew(x.Value)
+					case "NotAfter":
+						notAfter = skew(x.Value)
+					case "Organization":
+						if cl, ok := x.Value.(*ast.CompositeLit); ok && len(cl.Elts) == 1 {
+							if s, ok := cl.Elts[0].(*ast.SelectorExpr); ok && s.Sel.Name == "org" {
+								orgFromCfg = true
+							}
+						}
+					case "ExtKeyUsage":
+						if strings.Contains(src(x.Value), "x509.ExtKeyUsageServerAuth") {
+							serverAuth = true
+						}
+					}
+				case *ast.CompositeLit:
+					if src(x.Type) == "x509.VerifyOptions" {
+						for _, el := range x.Elts {
+							if kv, ok := el.(*ast.KeyValueExpr); ok {
+								verifyKeys = append(verifyKeys, src(kv.Key))
+								if src(kv.Key) == "DNSName" && keyIdent != "" && src(kv.Value) == keyIdent {
+									verifyNameIsKey = true
+								}
+							}
+						}
+					}
+				}
+				return true
+			})
+		}
+		sort.Strings(verifyKeys)
+		g.def("tmplNotBefore", "String", leanStr(notBefore))
+		g.def("tmplNotAfter", "String", leanStr(notAfter))
+		g.def("tmplOrgFromConfig", "Bool", strconv.FormatBool(orgFromCfg))
+		g.def("tmplServerAuth", "Bool", strconv.FormatBool(serverAuth))
+		g.def("verifyOptionKeys", "List String", leanList(verifyKeys))
+		g.def("verifyNameIsCacheKey", "Bool", strconv.FormatBool(verifyNameIsKey))
 	})
 }
